@@ -28,7 +28,7 @@ static const char* SN[] = {"NOT_FRAGMENTED", "FRAGMENTED", "REASSEMBLED", "?"};
 
 struct Frag { u32 off, len; bool mf; u8 ttl, tos; };             // off/len in bytes
 struct Dgram {
-    u16 id = 0; u32 src = 0, dst = 0; u8 proto = 253; bool df = false; int link = L_RAW;
+    u16 id = 0; u32 src = 0, dst = 0; u8 proto = 253; bool df = false; bool rsv = false; int link = L_RAW;      // rsv: the reserved flag bit (RFC 3514), only on unfragmented packets: it is neither MF nor an offset
     Bytes linkhdr, opts_first, opts_rest, payload, trail; std::vector<Frag> fr;   // trail: bytes on the wire after the IP datagram (before Ethernet minimum-size padding)
     // fr sorted by offset; 1 entry without mf = unfragmented
 };
@@ -52,7 +52,7 @@ static void pad_link(int link, Bytes& f) { if (is_eth(link) && f.size() < 60) f.
 // the wire frame of fragment i (with_trail = false: what the parsed packet has to serialize to)
 static Bytes frame_of(const Dgram& d, size_t i, bool with_trail = true) {
     const Frag& f = d.fr[i]; Bytes out = d.linkhdr;
-    u16 ff = (u16)((f.mf ? 0x2000 : 0) | (d.df ? 0x4000 : 0) | (f.off >> 3));
+    u16 ff = (u16)((f.mf ? 0x2000 : 0) | (d.df ? 0x4000 : 0) | (d.rsv ? 0x8000 : 0) | (f.off >> 3));
     append_ip_header(out, d, f.off == 0 ? d.opts_first : d.opts_rest, f.ttl, f.tos, ff, f.len);
     out.insert(out.end(), d.payload.begin() + f.off, d.payload.begin() + f.off + f.len);
     if (with_trail) out.insert(out.end(), d.trail.begin(), d.trail.end());
@@ -61,7 +61,7 @@ static Bytes frame_of(const Dgram& d, size_t i, bool with_trail = true) {
 // the datagram the fragments came from: first fragment's header, offset 0, MF clear, whole payload
 static Bytes frame_whole(const Dgram& d) {
     Bytes out = d.linkhdr;
-    append_ip_header(out, d, d.opts_first, d.fr[0].ttl, d.fr[0].tos, (u16)(d.df ? 0x4000 : 0), d.payload.size());
+    append_ip_header(out, d, d.opts_first, d.fr[0].ttl, d.fr[0].tos, (u16)((d.df ? 0x4000 : 0) | (d.rsv ? 0x8000 : 0)), d.payload.size());
     out.insert(out.end(), d.payload.begin(), d.payload.end());
     pad_link(d.link, out); return out;
 }
@@ -253,7 +253,7 @@ static PDU* parse(int link, const ExactBuf& b) {
 // fragment i as an IP object made through the API (no wire bytes involved); the payload is a RawPDU, as the parser would make it
 static PDU* build_api(const Dgram& d, size_t i) {
     const Frag& f = d.fr[i]; std::unique_ptr<IP> ip(new IP(IPv4Address(ipstr(d.dst)), IPv4Address(ipstr(d.src))));
-    ip->id(d.id); ip->ttl(f.ttl); ip->tos(f.tos); ip->protocol(d.proto); ip->flags((IP::Flags)((f.mf ? IP::MORE_FRAGMENTS : 0) | (d.df ? IP::DONT_FRAGMENT : 0))); ip->fragment_offset((u16)(f.off / 8));
+    ip->id(d.id); ip->ttl(f.ttl); ip->tos(f.tos); ip->protocol(d.proto); ip->flags((IP::Flags)((f.mf ? IP::MORE_FRAGMENTS : 0) | (d.df ? IP::DONT_FRAGMENT : 0) | (d.rsv ? IP::FLAG_RESERVED : 0))); ip->fragment_offset((u16)(f.off / 8));
     ip->inner_pdu(new RawPDU(d.payload.data() + f.off, f.len));
     return ip.release();
 }
@@ -558,7 +558,7 @@ static void run_random(Rng& r, bool thorough, bool allow_reversed) {
             size_t P = r.chance(1, 12) ? 1 + r.below(8) : r.chance(1, 10) ? 1400 + r.below(2000) : 8 + r.below(200);
             Dgram d = make_dgram(r, share ? k.id : (u16)r.next(), share || r.chance(1, 2) ? k.src : (u32)r.next() | 1, share || r.chance(1, 2) ? k.dst : (u32)r.next() | 1, pick_link(r), P, r.chance(1, 5));
             d.df = r.chance(1, 2); d.fr.push_back({0, (u32)d.payload.size(), false, (u8)(1 + r.below(255)), r.byte()});
-            if (d.df) cnt("shape:unfragmented-with-DF");
+            if (d.df) cnt("shape:unfragmented-with-DF"); d.rsv = r.chance(1, 4); if (d.rsv) cnt("shape:unfragmented-with-reserved-flag-bit");
             e = Ev{EV_UNFRAG, (int)dgs.size(), 0}; dgs.push_back(std::move(d));
         }
         evs.insert(evs.begin() + r.below((u32)evs.size() + 1), e);
